@@ -282,6 +282,11 @@ def evaluate(cases, result, checks, tag, known_keys=(), shard_size=16, property_
             result["samples"].append({"case": {k: case[k] for k in ("script", "ops", "peers")}, "first_term": o["coq"][0][:600]})
     if not terms or not checks:
         return
+    # spread the terms over the shards round-robin: the heavy terms (late runs of long histories) come in blocks
+    nshards = max(1, (len(terms) + shard_size - 1) // shard_size)
+    order = sorted(range(len(terms)), key=lambda i: (i % nshards, i))
+    terms = [terms[i] for i in order]
+    owner = [owner[i] for i in order]
     fails, errs = vlib.coq_eval_cases(tag, HEADER, TYPE, checks, terms, shard_size=shard_size)
     result["errors"].extend(errs)
     dist["runs given to the model"] = dist.get("runs given to the model", 0) + len(terms)
